@@ -10,6 +10,7 @@ import (
 	"testing"
 
 	"github.com/bilibili/smgo/sm4"
+	"verif/guard"
 	"verif/refs/gcmref"
 	"verif/vx"
 )
@@ -24,6 +25,8 @@ func refOpen(fast cipher.AEAD, key, nonce, ct, aad []byte, tag int) ([]byte, boo
 	}
 	return gcmref.Open(refCipher(key), nonce, ct, aad, tag)
 }
+
+var c07arena *guard.Arena
 
 type c07case struct {
 	Key             string
@@ -53,6 +56,19 @@ func c07eval(r *vx.R, c c07case, fast cipher.AEAD) {
 		dst = bytes.Repeat([]byte{0xA5}, len(ct)+32)[:0]
 	}
 	ctCopy := append([]byte{}, ct...)
+	if len(ct) <= 8000 {
+		// the ciphertext ends exactly at the end of mapped memory (the spare-capacity variants: starts right behind an
+		// inaccessible page): reading a tag shorter than 16 bytes with a 16-byte load, or the ciphertext in whole blocks,
+		// faults here and nowhere else
+		if c07arena == nil {
+			c07arena = guard.New(3)
+		}
+		if c.DstSpare {
+			ctCopy = c07arena.Head(ct)
+		} else {
+			ctCopy = c07arena.Tail(ct)
+		}
+	}
 	var got []byte
 	var gerr error
 	kind, msg := vx.TryFault(func() { got, gerr = a.Open(dst, nonce, ctCopy, aad) })
@@ -109,7 +125,7 @@ func c07eval(r *vx.R, c c07case, fast cipher.AEAD) {
 }
 
 func TestVX_C07(t *testing.T) {
-	r := vx.Begin("C07", gcmPart("open"), "valid messages over pt lengths {0,1,15,16,17,31,32,33,63,64,65,127,128,129,255,256,257,1100} x aad {0,1,16,17,129} x nonce length {1,12,13,16,128} x tag {12..16} (quick: a slice), plus large base messages (pt,aad) in {(2048,13),(4096,0),(4097,13),(65537,5),(33,4096),(20,65537),(8192,8192)} [thorough: also (2^20,3),(2^20+17,2^16+1),(16389,0)]: Open must return the plaintext; then every single-bit flip of ciphertext body, tag, nonce and aad (large messages: one bit in each byte at both ends, the middle and next to every kernel-width boundary), removal of the last 1..tagSize bytes, removal of the first byte, one appended byte, the tag presented to an AEAD of every other tag size, every prefix shorter than the tag, all-zero tag. Oracle: reference GCM decides (standard library generic GCM over sm4ref, itself checked against gcmref on each base message; gcmref directly where the standard library cannot express the parameters); never panic; nil plaintext on error; no plaintext left in the caller's dst after a rejection; three AEADs built from one Block in every order of five (nonce,tag) parameter sets, each used after the others exist; the destination-with-spare variants are opened a second time in the record layout (one buffer header|ciphertext: dst = additional data = header, opened in place) with the same verdict required. Shape=(key, mutation, lengths, verdict, path)")
+	r := vx.Begin("C07", gcmPart("open"), "valid messages over pt lengths {0,1,15,16,17,31,32,33,63,64,65,127,128,129,255,256,257,1100} x aad {0,1,16,17,129} x nonce length {1,12,13,16,128} x tag {12..16} (quick: a slice), plus large base messages (pt,aad) in {(2048,13),(4096,0),(4097,13),(65537,5),(33,4096),(20,65537),(8192,8192)} [thorough: also (2^20,3),(2^20+17,2^16+1),(16389,0)]: Open must return the plaintext; then every single-bit flip of ciphertext body, tag, nonce and aad (large messages: one bit in each byte at both ends, the middle and next to every kernel-width boundary), the same difference applied to every pair of tag bytes, to all tag bytes and to whole 4- and 8-byte words of the tag, removal of the last 1..tagSize bytes, removal of the first byte, one appended byte, the tag presented to an AEAD of every other tag size, every prefix shorter than the tag, all-zero tag. Oracle: reference GCM decides (standard library generic GCM over sm4ref, itself checked against gcmref on each base message; gcmref directly where the standard library cannot express the parameters); never panic; nil plaintext on error; no plaintext left in the caller's dst after a rejection; three AEADs built from one Block in every order of five (nonce,tag) parameter sets, each used after the others exist; the destination-with-spare variants are opened a second time in the record layout (one buffer header|ciphertext: dst = additional data = header, opened in place) with the same verdict required. Shape=(key, mutation, lengths, verdict, path)")
 	defer r.End()
 	selfCheck()
 	if raw, ok := vx.Replay(gcmPart("open")); ok {
@@ -169,6 +185,34 @@ func TestVX_C07(t *testing.T) {
 				continue // large messages: one bit in each byte next to a kernel-width boundary, the ends and the middle
 			}
 			emit(fmt.Sprintf("%s:%d", region, bit), nonce, flip(ct, bit), aad, tag, bit%16 == 0)
+		}
+		// correlated changes of the tag: the same difference in two bytes (every pair), in every byte, and in the bytes of
+		// one 4- or 8-byte word - a comparison that folds words together (xor instead of or) cancels them
+		if !sparse || pl < 3000 {
+			for _, dlt := range []byte{0x01, 0x80, 0xff} {
+				for i := body; i < len(ct); i++ {
+					for j := i + 1; j < len(ct); j++ {
+						o := append([]byte{}, ct...)
+						o[i] ^= dlt
+						o[j] ^= dlt
+						emit(fmt.Sprintf("tag-pair:%d:%d:%02x", i-body, j-body, dlt), nonce, o, aad, tag, false)
+					}
+				}
+				all := append([]byte{}, ct...)
+				for i := body; i < len(ct); i++ {
+					all[i] ^= dlt
+				}
+				emit(fmt.Sprintf("tag-all-bytes:%02x", dlt), nonce, all, aad, tag, false)
+				for _, w := range []int{4, 8} {
+					for st := body; st+w <= len(ct); st += w {
+						o := append([]byte{}, ct...)
+						for i := st; i < st+w; i++ {
+							o[i] ^= dlt
+						}
+						emit(fmt.Sprintf("tag-word%d:%d:%02x", w, st-body, dlt), nonce, o, aad, tag, false)
+					}
+				}
+			}
 		}
 		for bit := 0; bit < 8*len(nonce); bit++ {
 			emit(fmt.Sprintf("flip-nonce:%d", bit), flip(nonce, bit), ct, aad, tag, false)
